@@ -37,7 +37,8 @@ class RawModel(Model):
         self.links_in = Counter({k: v for k, v in fs.link_counter(False).items() if k[0] is not None and k[1] is not None})
         self.links = self.links_in if direction == "in" else self.links_out
         self.last = fs.header_last_id()
-        self.issued = []
+        # every id up to the one in the header may have been issued; ids above it must not appear
+        self.issued = list(range(1, max([self.last] + list(self.pref.values())) + 1))
         self.probe = Counter()
 
 
